@@ -128,6 +128,11 @@ type mwGenCfg struct {
 	// cacheAndRollback: on single-node trees, writers may use a node cache and
 	// transactions may end in ROLLBACK
 	cacheAndRollback bool
+	// returnPattern (one in N cases, 0 = never): the history starts by writing a row, deleting
+	// it, vacuuming everything away (year-2100 cutoff) and writing the byte-identical row again
+	// through another connection of the process, with node caches on and a single-node tree:
+	// the table returns to a content whose node object was deleted in between
+	returnPattern int
 }
 
 func genPerm(t *rapid.T, label string) []int {
@@ -149,6 +154,14 @@ func genMWCase(t *rapid.T, g mwGenCfg) MWCase {
 	single := g.cacheAndRollback && c.EPN == 4096
 	if single {
 		c.Cache = rapid.SampledFrom([]int{0, 3, 1000}).Draw(t, "cache")
+	}
+	withReturn := g.returnPattern > 0 && rapid.IntRange(0, g.returnPattern-1).Draw(t, "returnpattern") == 0
+	if withReturn {
+		c.EPN = 4096
+		c.Cache = rapid.SampledFrom([]int{3, 1000}).Draw(t, "rcache")
+		if c.NWriters < 2 {
+			c.NWriters = 2
+		}
 	}
 	cfg := stmtGenCfg{keys: intKeys(c.NKeys), cols: wideCols, vals: vals, multiRow: g.multiRow, wIns: g.wIns, wUpd: g.wUpd, wDel: g.wDel}
 	n := rapid.IntRange(2, g.maxSteps).Draw(t, "nsteps")
@@ -215,7 +228,19 @@ func genMWCase(t *rapid.T, g mwGenCfg) MWCase {
 			c.Steps = append(c.Steps, vs)
 		}
 	}
-	if g.wVacuum > 0 && rapid.Bool().Draw(t, "prefill") {
+	if withReturn {
+		k := rapid.SampledFrom(intKeys(c.NKeys)).Draw(t, "rkey")
+		col := rapid.SampledFrom(wideCols).Draw(t, "rcol")
+		ins := Stmt{Kind: "ins", Keys: []Val{k}, Cols: []string{col}, Vals: [][]Val{{vInt(1)}}, T: -30}
+		pat := []MWStep{
+			{Op: "stmt", W: 0, Stmts: []Stmt{ins}},
+			{Op: "stmt", W: 0, Stmts: []Stmt{{Kind: "del", Keys: []Val{k}, T: -29}}},
+			{Op: "vacuum", W: 0, Cut: -1},
+			{Op: "stmt", W: rapid.IntRange(0, 1).Draw(t, "rw"), Stmts: []Stmt{ins}},
+			{Op: "observe"},
+		}
+		c.Steps = append(pat, c.Steps...)
+	} else if g.wVacuum > 0 && rapid.Bool().Draw(t, "prefill") {
 		// a populated table from the start (one multi-row INSERT before everything else), so
 		// that trees have several nodes and consecutive versions share most of them
 		st := Stmt{Kind: "ins", Cols: []string{"a"}, T: -10}
